@@ -6,4 +6,6 @@ W_GetFound == ~(last.op = "get" /\ last.err = "")
 W_GetMissing == ~(last.op = "get" /\ last.err # "")
 W_LatestAfterRemove == ~(last.op = "latest" /\ nrem > 0)
 W_Removed == ~(last.op = "remove")
+W_PartialRun == ~(Partial # {})
+W_RunAfterPartial == ~(\E r1 \in Partial : \E r2 \in runs : r2.tok # 0 /\ r2.name = r1.name /\ r2.n > r1.n)
 =============================================================================
